@@ -2197,6 +2197,23 @@ impl ProtoExpression {
                             builder,
                         );
                     }
+                    // A branch whose node is wide can still arrive as a narrow
+                    // value (a reduction or comparison evaluated in a >64-bit
+                    // context yields `uextend.i64`); `select` needs both arms
+                    // of one type.
+                    for (payload, mask_xz) in [
+                        (&mut true_payload, &mut true_mask_xz),
+                        (&mut false_payload, &mut false_mask_xz),
+                    ] {
+                        if builder.func.dfg.value_type(*payload) != I128 {
+                            *payload = builder.ins().uextend(I128, *payload);
+                        }
+                        if let Some(v) = *mask_xz
+                            && builder.func.dfg.value_type(v) != I128
+                        {
+                            *mask_xz = Some(builder.ins().uextend(I128, v));
+                        }
+                    }
                 } else if both_signed {
                     if *width > true_expr.width() {
                         (true_payload, true_mask_xz) = expand_sign(
